@@ -106,8 +106,12 @@ fn main() {
             let mut fi = std::io::BufWriter::new(std::fs::File::create(outdir.join("impl.txt")).unwrap());
             for (i, (tag, c)) in cases.iter().enumerate() {
                 let id = format!("{}#{}#{}", prop, i, tag);
+                // the case is on disk before the implementation runs it: if the process dies (abort, allocation
+                // failure, stack overflow - nothing catch_unwind can stop), the case without a result line is the one
                 writeln!(fc, "{}", tok::line(&id, &c.encode())).unwrap();
+                fc.flush().unwrap();
                 writeln!(fi, "{}", tok::line(&id, &c.run())).unwrap();
+                fi.flush().unwrap();
             }
             println!("{} cases", cases.len());
         }
